@@ -1831,7 +1831,12 @@ def index_chain_to_rows(fn_node) -> Optional[str]:
     cand = None
     for r in rets:
         v = r.value
+        # B[R] or a further selection of it, B[R][sel]
+        while isinstance(v, ast.Subscript) and isinstance(v.value, ast.Subscript):
+            v = v.value
         if isinstance(v, ast.Subscript) and isinstance(v.value, ast.Name) and isinstance(v.slice, ast.Name):
+            if cand is not None and cand != (v.value.id, v.slice.id):
+                return None
             cand = (v.value.id, v.slice.id)
         else:
             return None
